@@ -1,5 +1,5 @@
-"""F16 (C15, fixed by 08a0951): the legacy MultipartUploader sent complete_multipart_upload / abort_multipart_upload without the
-user's RequestPayer although both operations accept it.
+"""F17 (C15, open): the legacy MultipartUploader sends complete_multipart_upload without the
+user's SSE-C arguments although CompleteMultipartUpload accepts them (pinned by an existing unit test).
 Exit 1 = reproduced on the tree in sys.argv[1] (default /repo)."""
 import os, sys, tempfile
 sys.path.insert(0, sys.argv[1] if len(sys.argv) > 1 else '/repo')
@@ -12,10 +12,10 @@ class Client:
     def abort_multipart_upload(self, **kw): log.append(('abort', kw))
 d = tempfile.mkdtemp(); fn = os.path.join(d, 'f'); open(fn, 'wb').write(b'x' * 25)
 MultipartUploader(Client(), TransferConfig(multipart_threshold=10, multipart_chunksize=10, max_concurrency=1), OSUtils()).upload_file(
-    fn, 'b', 'k', None, {'RequestPayer': 'requester'})
+    fn, 'b', 'k', None, {'SSECustomerAlgorithm': 'AES256', 'SSECustomerKey': 'k'})
 os.remove(fn); os.rmdir(d)
 comp = [kw for n, kw in log if n == 'complete'][0]
 print('complete kwargs:', sorted(comp))
-ok = comp.get('RequestPayer') == 'requester'
-print('HELD' if ok else 'REPRODUCED: legacy complete_multipart_upload lacks RequestPayer')
+ok = comp.get('SSECustomerAlgorithm') == 'AES256' and comp.get('SSECustomerKey') == 'k'
+print('HELD' if ok else 'REPRODUCED: legacy complete_multipart_upload lacks the SSE-C arguments')
 sys.exit(0 if ok else 1)
